@@ -5,6 +5,7 @@ import copy
 import hashlib
 import json
 import multiprocessing as mp
+from .par import pmap
 import os
 import random
 import re
@@ -186,6 +187,5 @@ def shorthand_groups(cases, cap=None, seed=0):
         fixed = [c for c in cases if c["kind"] != "params" or len(c["vals"]) == 1]
         rest = [c for c in cases if not (c["kind"] != "params" or len(c["vals"]) == 1)]
         cases = fixed + rng.sample(rest, max(0, min(len(rest), cap - len(fixed))))
-    with mp.Pool(16) as pool:
-        outs = pool.map(_job, cases, chunksize=8)
+    outs = pmap(_job, cases)
     return [o for o in outs if "error" not in o], [o for o in outs if "error" in o]
